@@ -103,6 +103,7 @@ def run(ck, F, tier):
     ck.rule("R3", "zero-iteration shortcut")
     ck.rule("R4", "parity evaluation in check_llrs; hard_decisions is a positional map")
     ck.rule("R5", "length discipline")
+    ck.rule("R8", "the parity checks are evaluated over the matrix as a *set* of ones: every mutator of SparseMatrix keeps rows and columns duplicate-free and mutually consistent (the rule C17-X1, run here; a duplicated entry is counted twice by check_llrs and cancels)")
     ck.rule("R7", "the trait objects the factory hands out run the analysed decode: LdpcDecoder::decode of both schedules forwards (self, llrs, max_iterations) unchanged to the inherent decode")
     ck.rule("R6", "hard-decision hooks of all arithmetics take &self (pure functions of the stored value)")
     ck.trust("rustc HIR of the two generic decode bodies; Iterator::any/filter/count/map/collect semantics")
@@ -333,3 +334,6 @@ def run(ck, F, tier):
     ck.floor("R6", "hard-decision hooks", n6, 48)
 
     forwarding_rule(ck, F, "R7")
+    from ..report import RuleAlias
+    from . import c17
+    c17.run(RuleAlias(ck, "R8", only=lambda r_, k_: r_ == "X1"), F, "quick")
